@@ -166,6 +166,19 @@ def _wiring(tree):
     pl = parse("snowfakery/plugins.py")
     out += _strlist("memorableBody", _body(find_func(pl, "evaluate_memorable_function")), "`evaluate_memorable_function` statements")
     om = parse("snowfakery/data_generator_runtime_object_model.py")
+    # the key under which a call site keeps its state (RandomReferenceContext incl. the unique RNG):
+    # one key per parsed StructuredValue object, installed when the value is rendered
+    sv = find_class(om, "StructuredValue")
+    key_asg = [n for n in ast.walk(find_func(sv, "__init__")) if isinstance(n, ast.Assign)
+               and ast.unparse(n.targets[0]) == "self.unique_context_identifier"]
+    if len(key_asg) != 1:
+        raise PinError("StructuredValue.__init__: expected one assignment to self.unique_context_identifier")
+    rbody = _body(find_func(sv, "render"))
+    simple = find_class(om, "SimpleValue")
+    skey = [ast.unparse(n.value) for n in ast.walk(find_func(simple, "render")) if isinstance(n, ast.Assign)
+            and ast.unparse(n.targets[0]) == "context.unique_context_identifier"]
+    out += _strlist("callSiteKey", [ast.unparse(key_asg[0].value), rbody[0]] + skey,
+                    "state key of a function call site: value assigned in StructuredValue.__init__, first statement of its render, values SimpleValue.render installs")
     gr = find_func(om, "_generate_row", cls="ObjectTemplate")
     out += _strlist("generateRowBody", _body(gr), "`ObjectTemplate._generate_row` statements")
     return out
